@@ -303,6 +303,7 @@ type env struct {
 	sentinels int
 	readErrs  []string
 
+	verbose     bool // attach the scenario and a history sample to a held result (first cases only: evidence size)
 	writersDone atomic.Bool
 	probes      atomic.Int64
 	unrelCalls  atomic.Int64
@@ -432,7 +433,24 @@ func (e *env) decideNeverApplied(id string, after int64) driverOutcome {
 				}
 				o, _ := e.obs.last()
 				if o.T0 > mark && o.V != id {
-					return driverOutcome{kind: "never-applied", detail: map[string]any{"selected": id, "emitted_at": after, "still_observed": o, "goroutines": detail}}
+					// the decisive event is a Write: issued now, with nothing in flight, it must land on the selection.
+					msg := fmt.Sprintf("decide-%d", try)
+					if e.doWrite(len(e.sp.Writers), msg) {
+						return driverOutcome{kind: "panic"}
+					}
+					on := ""
+					for _, m := range e.members {
+						ws, _, _, _ := m.snapshot()
+						for _, w := range ws {
+							if w.Msg == msg {
+								on = string(m.id)
+							}
+						}
+					}
+					if on == id {
+						return driverOutcome{kind: "inconclusive", note: fmt.Sprintf("selection %s took effect for Write but NegotiationParams().TransportID still shows %q (the observation the oracle relies on is unusable)", id, o.V)}
+					}
+					return driverOutcome{kind: "never-applied", detail: map[string]any{"selected": id, "emitted_at": after, "still_observed": o, "goroutines": detail, "write_issued_afterwards": msg, "landed_on": on}}
 				}
 			}
 		}
@@ -457,9 +475,9 @@ func (e *env) confirmOrDecide(id string, after int64) driverOutcome {
 }
 
 // execCase runs the scenario. abort is closed by the caller's watchdog.
-func execCase(sp *spec, abort chan struct{}) vrun.Result {
+func execCase(sp *spec, abort chan struct{}, verbose bool) vrun.Result {
 	clk := &lclock{}
-	e := &env{sp: sp, clk: clk, byID: map[string]*member{}, pbox: &panicBox{}, obs: &observer{}, abort: abort}
+	e := &env{sp: sp, verbose: verbose, clk: clk, byID: map[string]*member{}, pbox: &panicBox{}, obs: &observer{}, abort: abort}
 	n := len(sp.Members)
 	tmap := multi.TransportMap{}
 	isMember := map[string]bool{}
@@ -540,7 +558,9 @@ func execCase(sp *spec, abort chan struct{}) vrun.Result {
 			return vrun.Violation("a configuration whose initial id is a member was rejected", "valid-config-rejected:"+sp.Mode, map[string]any{"spec": sp, "err": nerr.Error()})
 		}
 		res := vrun.Hold(sp.sig()+"/rejected", true)
-		res.Desc = sp
+		if verbose {
+			res.Desc = sp
+		}
 		res.Stat("nonmember_initial_id_rejected", 1)
 		res.AddSet("nonmember_id_outcomes", "initial-"+sp.InitClass+":rejected")
 		return res
@@ -724,21 +744,31 @@ func execCase(sp *spec, abort chan struct{}) vrun.Result {
 			}
 			if s.Class != "member" {
 				// give the library the chance to act on the non-member id, probing the three calls the statement names.
-				order := []string{sp.Probe, probeCalls[(si+1)%3], probeCalls[(si+2)%3]}
-				for k := 0; k < 60 && !e.pbox.flag.Load(); k++ {
-					c := order[0]
-					if k%4 == 3 {
-						c = order[1+(k/4)%2]
+				order := []string{sp.Probe}
+				for _, c := range probeCalls {
+					if c != sp.Probe {
+						order = append(order, c)
 					}
-					if c == "Write" && k >= 12 {
-						c = "NegotiationParams" // keep the history short
-						if sp.Probe == "AsUnreliable" {
-							c = "AsUnreliable"
+				}
+				probeWrites := 0
+				for k := 0; k < 120 && !e.pbox.flag.Load(); k++ {
+					c := order[0]
+					switch k % 4 {
+					case 1:
+						c = order[1]
+					case 3:
+						c = order[2]
+					}
+					if c == "Write" {
+						if probeWrites >= 4 { // keep the history short
+							c = "NegotiationParams"
+						} else {
+							probeWrites++
 						}
 					}
 					e.probe(c, writerClient+2, fmt.Sprintf("probe-%d-%d", si, k))
-					if k%8 == 7 {
-						time.Sleep(15 * time.Microsecond)
+					if k%6 == 5 {
+						time.Sleep(20 * time.Microsecond)
 					} else {
 						runtime.Gosched()
 					}
@@ -824,6 +854,14 @@ func execCase(sp *spec, abort chan struct{}) vrun.Result {
 			"emissions": ems, "panics": e.pbox.n.Load()}
 		if cause == nil && initState != "?" {
 			return vrun.Violation("a call on the multi transport panicked although only member ids were configured and emitted", "panic:"+p.Call+":"+p.Site, wit)
+		}
+		if cause == nil {
+			return vrun.Violation(fmt.Sprintf("NewTransport accepted the %s initial transport id %q (not a member) and a later %s panicked", sp.InitClass, sp.Initial, keyCall),
+				"panic-after-nonmember-id:initial-id:"+keyCall, wit)
+		}
+		if sp.Mode == modeLastUsed {
+			return vrun.Violation(fmt.Sprintf("the library's LastUsedPoller answered the empty transport id %q, the polling scheduler emitted it and a following %s panicked", cause.ID, keyCall),
+				"panic-after-nonmember-id:polling-lastused", wit)
 		}
 		cls, id := "unknown", ""
 		if cause != nil {
@@ -1096,14 +1134,14 @@ func (e *env) judge(initState string, sumTx, sumRx, gotTx, gotRx uint64, cerr er
 	}
 	handedTotal := 0
 	inversions := 0
+	pos := map[string]int{}
+	for i, r := range reads {
+		if _, ok := pos[r.Msg]; !ok {
+			pos[r.Msg] = i
+		}
+	}
 	for _, m := range e.members {
 		_, handed, _, _ := m.snapshot()
-		pos := map[string]int{}
-		for i, r := range reads {
-			if _, ok := pos[r.Msg]; !ok {
-				pos[r.Msg] = i
-			}
-		}
 		lastPos := -1
 		for _, h := range handed {
 			handedTotal++
@@ -1113,7 +1151,7 @@ func (e *env) judge(initState string, sumTx, sumRx, gotTx, gotRx uint64, cerr er
 			case c > 1:
 				return vrun.Violation("a message read from a member was returned by Read more than once", "read-duplicated", map[string]any{"spec": sp, "member": m.id, "msg": h, "times": c})
 			}
-			if p := pos[h]; p < lastPos {
+			if p := pos[h]; sp.Consumers == 1 && p < lastPos {
 				inversions++
 			} else {
 				lastPos = p
@@ -1163,7 +1201,9 @@ func (e *env) judge(initState string, sumTx, sumRx, gotTx, gotRx uint64, cerr er
 		nontrivial = len(writes) > 0 && (nonmember > 0 || initState == "?")
 	}
 	res := vrun.Hold(sp.sig(), nontrivial)
-	res.Desc = map[string]any{"spec": sp, "history_sample": head(hist, 14)}
+	if e.verbose {
+		res.Desc = map[string]any{"spec": sp, "history_sample": head(hist, 14)}
+	}
 	res.Stat("writes", int64(len(writes)))
 	res.Stat("writes_overlapping_a_selection_interval", int64(overlap))
 	res.Stat("selections_emitted_raw", raw)
@@ -1177,7 +1217,7 @@ func (e *env) judge(initState string, sumTx, sumRx, gotTx, gotRx uint64, cerr er
 	res.Stat("asunreliable_calls", e.unrelCalls.Load())
 	res.Stat("porcupine_operations", int64(len(ops)))
 	res.Stat("messages_read_from_members", int64(handedTotal))
-	res.Stat("per_member_order_inversions_seen", int64(inversions))
+	res.Stat("per_member_order_inversions_seen_with_one_reader", int64(inversions))
 	res.Stat("members_closed", int64(closedN))
 	res.Stat("tx_bytes", int64(sumTx))
 	res.Stat("rx_bytes", int64(sumRx))
